@@ -119,6 +119,24 @@ def accRelevantFor (get : Bool) (sw : Bool × Bool) (st : NSt) (t : NType) : Boo
 def accRelevant (fl : NFlags) (st : NSt) (t : NType) : Bool :=
   fl.json && (accRelevantFor true (switchOf fl t) st t || accRelevantFor false (switchOf fl t) st t)
 
+/-! ## Out: is `AssignableToIface` certain?
+
+The model assumes that a type implements the generated accessor interface of every shoot type it embeds
+(`AssignableToIface`, getsetiface.go:9-53).  That is a go/types fact (method sets with Go's promotion rule: a
+promoted accessor is lost when another field or method of the same name sits at the same or a smaller depth).
+It certainly holds when the backing field of every method of the interface is the ONLY member of that
+(Pascal-cased) name in the whole flattened struct; otherwise the case is outside the model (advisory). -/
+
+def memberNames (t : NType) : List String :=
+  (Ctor.flatten t.tree).map (fun f => if f.isEmbeded then f.name else Transfer.pascalS f.name)
+
+def accessorSure (t : NType) (m : String) : Bool :=
+  ((memberNames t).filter (· == trimSet m)).length == 1
+
+def assignableSure (files : Disk) (t : NType) : Bool :=
+  ((Ctor.flatten t.tree).filter (·.isEmbeded)).all (fun e =>
+    (((lookupIface files (e.name ++ "Getter")).getD []) ++ ((lookupIface files (e.name ++ "Setter")).getD [])).all (accessorSure t))
+
 def mapCtorRelevant (st : MSt) (t : MType) : Bool :=
   match t.dest with
   | none => false
